@@ -542,6 +542,26 @@ def _split_eq(key: str):
     return None
 
 
+def _const_truth(key: str):
+    """truth value of an atom whose text is a comparison of literals only
+    (`None is None`, after a parameter was replaced by the literal its call
+    site - or its default - gives it), else None"""
+    try:
+        t = ast.parse(key, mode='eval').body
+    except SyntaxError:
+        return None
+    ok = (ast.Compare, ast.Constant, ast.UnaryOp, ast.BoolOp, ast.cmpop,
+          ast.unaryop, ast.boolop, ast.expr_context)
+    if not isinstance(t, (ast.Compare, ast.Constant)) or any(
+            not isinstance(x, ok) for x in ast.walk(t)):
+        return None
+    try:
+        return bool(eval(compile(ast.Expression(t), '<atom>', 'eval'),
+                         {'__builtins__': {}}, {}))
+    except Exception:
+        return None
+
+
 def holds(state: FrozenSet[Atom], atom: Atom) -> bool:
     if state is None:
         return True      # unreachable node: vacuous
@@ -637,6 +657,9 @@ class Facts:
             return True
         for p, k in atoms_of_test(node.ast, label == 'T', node.frame):
             if holds(st, (not p, k)):
+                return True
+            ct = _const_truth(k)
+            if ct is not None and ct != p:
                 return True
         return False
 
